@@ -28,7 +28,7 @@ func (r *Rng) Intn(n int) int {
 	}
 	return int(r.U64() % uint64(n))
 }
-func (r *Rng) P(num, den int) bool { return r.Intn(den) < num }
+func (r *Rng) P(num, den int) bool  { return r.Intn(den) < num }
 func (r *Rng) Fork(tag uint64) *Rng { return &Rng{s: hmix(r.U64(), tag)} }
 func pick[T any](r *Rng, xs []T) T  { return xs[r.Intn(len(xs))] }
 
